@@ -170,6 +170,62 @@ class HYear(common.Harness):
         return [self.check("C18:year_in_range_and_equals_text", z3.And(inr, lift_int(out) == self.y), self.witness)]
 
 
+class HYearText(common.Harness):
+    """get_year on year *text*: any string of <= 5 arbitrary characters (all of Unicode).  It never raises; a
+    number is returned only for text that int() reads as a number in the accepted range, and for the texts the
+    year patterns capture (exactly four decimal digits of any script) the number is their decimal value."""
+
+    def __init__(self, params):
+        super().__init__(params)
+        import eyecite.helpers as Hh
+        from vf import symre
+        from vf.harness import pinlemma
+
+        self.Hh, self.symre, self.pl = Hh, symre, pinlemma
+        self.N = params["N"]
+        self.hi = z3.Int("highest_valid_year")
+        self.eng.assume(self.hi >= 2025)
+        # int() model shared with the pin-cite lemma (strip, sign, Unicode decimal digits, else ValueError)
+        self._int = pinlemma.HPin.stub_int.__get__(self)
+        self.interp.stubs[int] = self._int
+
+    def run(self):
+        eng = self.eng
+        n = eng.choose([z3.Int("len") == k for k in range(self.N + 1)])
+        self.chars = [z3.Int(f"c{i}") for i in range(n)]
+        for c in self.chars:
+            eng.add(c >= 0, c <= 0x10FFFF)
+        saved = self.Hh._highest_valid_year
+        self.Hh._highest_valid_year = SInt(self.hi)
+        try:
+            return self.interp.call(self.Hh.get_year, (self.symre.CStr(list(self.chars)) if n else "",), {})
+        finally:
+            self.Hh._highest_valid_year = saved
+
+    def witness(self, m):
+        return {"year_text": "".join(chr(mval(m, c) or 0) for c in self.chars), "highest_valid_year": mval(m, self.hi)}
+
+    def describe(self, kind, out):
+        m = self.eng.path_model()
+        return self.witness(m) if m is not None else {}
+
+    def judge(self, kind, out):
+        if kind == "exc":
+            return [self.check("C18:get_year_raises:" + type(out).__name__, False, self.witness)]
+        pl = self.pl
+        fs = []
+        if out is not None:
+            y = lift_int(out)
+            fs.append(self.check("C18:year_text:returned_year_is_in_the_accepted_range", z3.And(y >= 1600, y <= self.hi), self.witness))
+        if len(self.chars) == 4:
+            alld = z3.And(*[pl.is_digit(c) for c in self.chars])
+            v = pl.number_value(self.chars)
+            inr = z3.And(v >= 1600, v <= self.hi)
+            want = z3.Not(inr) if out is None else z3.And(inr, lift_int(out) == v)
+            fs.append(self.check("C18:year_text:four_decimal_digits_give_their_value_iff_in_range", z3.Implies(alld, want), self.witness))
+        return fs or [self.check("C18:year_text:returned_year_is_in_the_accepted_range", z3.BoolVal(True), self.witness)]
+
+
 class HDis(common.Harness):
     """disambiguate_reporters"""
 
@@ -225,10 +281,30 @@ class HDis(common.Harness):
 
 
 def make(params):
-    return {"guess": HGuess, "year": HYear, "dis": HDis}[params["part"]](params)
+    return {"guess": HGuess, "year": HYear, "year_text": HYearText, "dis": HDis}[params["part"]](params)
 
 
 # ---------------------------------------------------------------- replay
+def replay_year_text(text):
+    import re as _re
+
+    import eyecite.helpers as Hh
+
+    try:
+        got = Hh.get_year(text)
+    except Exception as ex:
+        return ["C18:get_year_raises:" + type(ex).__name__], None
+    bad = []
+    hi = Hh._highest_valid_year
+    if got is not None and not (1600 <= got <= hi):
+        bad.append("C18:year_text:returned_year_is_in_the_accepted_range")
+    if _re.fullmatch(r"\d{4}", text):
+        v = int(text)
+        if (got is None) == (1600 <= v <= hi) or (got is not None and got != v):
+            bad.append("C18:year_text:four_decimal_digits_give_their_value_iff_in_range")
+    return bad, got
+
+
 def replay_guess(w):
     import eyecite.models as M
 
@@ -314,7 +390,9 @@ def check(rep):
     rep.outside.append("more candidate editions; year strings that are not 4 digits (the year patterns only capture \\d{4}, see C02 harness); inherited years of parallel citations")
     rep.stubs += ["datetime.now().year: symbolic >= 2024", "helpers._highest_valid_year: symbolic >= 2025 (module constant computed at import)"]
     findings = []
-    for part, params in (("guess", {"part": "guess", "E": E}), ("year", {"part": "year"}), ("dis", {"part": "dis", "M": 3 if quick else 4})):
+    NT = 4 if quick else 5
+    rep.bounds.append(f"get_year on text: every string of <= {NT} arbitrary characters (never raises, a returned year is in range; four decimal digits of any script give their value)")
+    for part, params in (("guess", {"part": "guess", "E": E}), ("year", {"part": "year"}), ("year_text", {"part": "year_text", "N": NT}), ("dis", {"part": "dis", "M": 3 if quick else 4})):
         agg = common.explore_split("vf.harness.c18", params, depth=3)
         rep.merge_explore(part, agg)
         findings += [(part, f) for f in agg["findings"]]
@@ -340,6 +418,20 @@ def check(rep):
     rep.distinct = rep.evaluations
     seen = set()
     for part, f in findings:
+        if part == "year_text":
+            if f["verdict"] != "cex":
+                rep.inconc(f"{part}/{f['clause']}: solver verdict {f['verdict']}")
+                continue
+            rep.replays += 1
+            bad, got = replay_year_text(f["witness"]["year_text"])
+            if bad:
+                if ("year_text", tuple(bad)) not in seen:
+                    seen.add(("year_text", tuple(bad)))
+                    rep.violation(f"get_year({f['witness']['year_text']!r}) -> {got}: {bad}", {"kind": "year_text", "text": f["witness"]["year_text"]})
+            else:
+                rep.spurious += 1
+                rep.inconc(f"year-text model {f['witness']['year_text']!r} did not reproduce ({f['clause']})")
+            continue
         if part not in ("guess", "year", "dis"):
             continue
         if f["verdict"] != "cex":
@@ -392,6 +484,8 @@ def replay_file(path):
         bad = replay_guess(r["witness"])[0]
     elif r["kind"] == "year":
         bad = replay_year(r["witness"])[0]
+    elif r["kind"] == "year_text":
+        bad = replay_year_text(r["text"])[0]
     elif r["kind"] == "text":
         from eyecite import get_citations
 
